@@ -560,6 +560,14 @@ class SparseWorld(BaseWorld):
             self.stats['fault:' + plan.why] += 1
             self.check_all(ev, 'rejected-op-changed-state')
             return f'rejected:{type(raised).__name__}'
+        if raised is not None and plan.nonfinite and isinstance(raised, ArithmeticError):
+            # convention (iv): inf - inf, 0 * inf ... have no reference value; whether Python floats
+            # (nan) or NumPy scalars (FloatingPointError under thermosteam's np.seterr) meet is immaterial
+            self.stats['nonfinite_steps'] += 1
+            if plan.writes is not None:
+                self.resync(plan.writes[0])
+            self.check_all(ev, 'state')
+            return f'nonfinite:{type(raised).__name__}'
         if raised is not None:
             again = None
             try:
@@ -965,6 +973,15 @@ class SparseWorld(BaseWorld):
             return False
         return True
 
+    def _dest_cells(self, t, ix):
+        if t.kind == 'v':
+            return list(t.cells)
+        row = ix['e'][0] if ix.get('t') == 'tuple' else ix
+        if row.get('t') in ('int', 'slice', 'list', 'nd', 'mask'):
+            sel = np.arange(len(t.cells))[self._index(row, (len(t.cells),), True)]
+            return [t.cells[k] for k in np.atleast_1d(sel)]
+        return list(t.cells)
+
     def _p_get(self, ev):
         t = self.objs.get(ev.get('target'))
         if t is None or not isinstance(ev.get('index'), dict):
@@ -1007,6 +1024,12 @@ class SparseWorld(BaseWorld):
             return None
         if nsel == 0 and (t.kind == 'a' or np.ndim(V) > 0):
             return None
+        vc = self._operand_cells(ev['value'])
+        if vc and set(vc) & set(self._dest_cells(t, ev['index'])):
+            # the value overlaps the assigned rows: NumPy's own result for x[idx] = x is not
+            # specified for fancy indices; only the whole-object form x[:] = x is kept
+            if not (_full(ev['index']) and list(vc) == list(t.cells)):
+                return None
         A2 = A.copy()
         name, spec, vspec = ev['target'], ev['index'], ev['value']
         plan = Plan(lambda uni: uni[name].__setitem__(self._index(spec, shape, False, uni),
@@ -2040,37 +2063,18 @@ def _r_isub_self(w, ev, plan):
 
 
 def _r_overlap_order(w, ev, plan):
-    # the operand shares storage with part of the target and is read after that part was updated
+    # in-place operator / copy_like whose operand shares a row with the target: the rows are
+    # processed one after the other, so the shared row is read after it was already updated
     op = ev.get('op')
-    if op not in ('iop', 'set', 'copy_like'):
+    if op not in ('iop', 'copy_like'):
         return False
     t = w.objs[ev['target']]
-    spec = ev.get('other') if op == 'iop' else (ev.get('value') if op == 'set' else {'k': 'ref', 'name': ev.get('other')})
+    spec = ev.get('other') if op == 'iop' else {'k': 'ref', 'name': ev.get('other')}
     oc = w._operand_cells(spec)
     if not oc or not (set(oc) & set(t.cells)):
         return False
-    if op == 'set':
-        ix = ev['index']
-        full = ix.get('t') == 'slice' and ix.get('a') is None and ix.get('b') is None and ix.get('s') is None
-        if t.kind == 'v':
-            return not full
-        if full or ix.get('t') in ('int', 'slice', 'list', 'nd'):
-            shape = w.shape(t)
-            sel = np.arange(shape[0])[w._index(ix, (shape[0],), True)]
-            tc = [t.cells[k] for k in np.atleast_1d(sel)]
-        else:
-            return True
-        pairs = _row_pairs(tc, oc)
-        seen = set()
-        for a, b in pairs:
-            if b in seen:
-                return True
-            if a != b:
-                seen.add(a)
-        return False
-    pairs = _row_pairs(t.cells, oc)
     seen = set()
-    for a, b in pairs:
+    for a, b in _row_pairs(t.cells, oc):
         if b in seen:
             return True
         if op == 'iop' or a != b:
@@ -2207,7 +2211,34 @@ def _r_clear_before_reject(w, ev, plan):
             and _full(ix['e'][1]))
 
 
+def _r_logical_mask_order(w, ev, plan):
+    # x[<sparse logical mask>]: the selected positions come in the mask's SET iteration order
+    # (SparseLogicalVector.nonzero_index does not sort), which is history dependent
+    if ev.get('op') not in ('get', 'set') or ev['index'].get('t') != 'smask':
+        return False
+    if ev['op'] == 'set' and np.ndim(_strip(np.asarray(w._operand_np(ev['value'])))) == 0:
+        return False
+    mask = w.objs[ev['index']['name']].real
+    rows = mask.rows if mask.__class__ is SparseArray else [mask]
+    return any([*row.set] != sorted(row.set) for row in rows)
+
+
+def _r_min_logical_bool(w, ev, plan):
+    # min() of logical data returns a Python bool; the sparse results built from it are FLOAT
+    # vectors holding True, which NumPy (iterating the object) reads back as a bool array
+    if ev.get('op') != 'reduce' or ev.get('fn') != 'min' or plan.ref is None or not np.any(plan.ref):
+        return False
+    t = w.objs[ev['target']]
+    if not w.is_bool(t):
+        return False
+    if t.kind == 'v':
+        return bool(ev.get('keepdims'))
+    return ev.get('axis') == 1 or (ev.get('axis') is None and bool(ev.get('keepdims')))
+
+
 REGIONS.update({
+    'C09-min-logical-bool': _r_min_logical_bool,
+    'C09-logical-mask-order': _r_logical_mask_order,
     'C09-vector-iop-2d': _r_vector_iop_2d,
     'C09-clear-before-reject': _r_clear_before_reject,
     'C09-isub-self': _r_isub_self,
